@@ -568,7 +568,7 @@ func ruleNarrowOnlyKey(p *Prog, r *Result) {
 				if v == nil || isNilConst(v) {
 					return
 				}
-				if !derivesFrom(v, func(x ssa.Value) bool { return isFieldLoad(x, "StringExpr", "Data") }) {
+				if !derivesFrom(v, func(x ssa.Value) bool { return isFieldLoad(x, "StringExpr", "Data") }) && !p.derivesFromField(v, "StringExpr", "Data", traceOpts{IntoReturns: true, MaxDepth: 3}) {
 					lit = false
 					why = "a region bound is not taken from a string literal of the atom"
 				}
